@@ -670,3 +670,14 @@ Proof.
   { inversion EP; subst. cbn [negb] in H. inversion H; reflexivity. }
   inversion EP; subst. cbn [negb] in H. exact (DISP H).
 Qed.
+
+(* a follower hands the leader's answer to a forwarded read request to its application unchanged:
+   the index the leader confirmed, not something derived from the follower's own (possibly lagging)
+   commit index (C11) *)
+Theorem follower_reports_leaders_read_index st r m e r' err :
+  m_type m = MsgReadIndexResp -> m_entries m = [e] ->
+  step_follower st r m = Ok (r', err) ->
+  r_read_states r' = r_read_states r ++ [mkRS (m_index m) (e_data e)].
+Proof.
+  unfold step_follower. intros TY EN H. rewrite TY, EN in H. inversion H; subst. reflexivity.
+Qed.
